@@ -44,9 +44,33 @@ let hash_pred seed num den (a : int list) : bool =
   h := (!h * 1103515245 + 12345) land 0x7fffffff;
   ((!h lsr 12) mod den) < num
 
+(* the strongly pruning families of harness/cmd/c15/main.go (prunePred) *)
+let prune_pred (kind : char) (c : int) (a : int list) : bool =
+  let arr = Array.of_list a in
+  let l = Array.length arr in
+  let last = arr.(l - 1) in
+  match kind with
+  | 's' ->
+    let t = ref 0 and ok = ref true in
+    Array.iter (fun v -> t := !t + v; if !t > c then ok := false) arr; !ok
+  | 'd' ->
+    if last - (l - 1) > 1 || (l - 1) - last > 1 then false
+    else begin
+      let t = ref 0 in
+      Array.iteri (fun i v -> if v > i then incr t) arr; !t <= c
+    end
+  | 'e' ->
+    if last < l - 2 then false
+    else begin
+      let t = ref 0 and mx = ref (-1) in
+      Array.iter (fun v -> if v < !mx then incr t else mx := v) arr; !t <= c
+    end
+  | _ -> failwith "bad predicate kind"
+
 let parse_pred (tok : string) : z list -> bool =
   let rest = String.sub tok 1 (String.length tok - 1) in
   match tok.[0] with
+  | 's' | 'd' | 'e' -> let c = int_of_string rest in let k = tok.[0] in fun a -> prune_pred k c (is_ a)
   | 'p' -> let i = int_of_string rest in fun a -> fixed_pred i (is_ a)
   | 'h' ->
     (match List.map int_of_string (String.split_on_char ':' rest) with
@@ -55,7 +79,15 @@ let parse_pred (tok : string) : z list -> bool =
   | _ -> failwith "bad predicate"
 
 let parse_less (tok : string) : z -> z -> bool =
-  let mask = int_of_string (String.sub tok 1 (String.length tok - 1)) in
+  let rest = String.sub tok 1 (String.length tok - 1) in
+  if tok.[0] = 'f' then begin
+    (* the total order without the pairs (i, i+1) for the listed i *)
+    let free = if rest = "" then [] else List.map int_of_string (String.split_on_char '.' rest) in
+    fun i j ->
+      let i = int_of_z i and j = int_of_z j in
+      i < j && not (j = i + 1 && List.mem i free)
+  end else
+  let mask = int_of_string rest in
   fun i j ->
     let i = int_of_z i and j = int_of_z j in
     i < j && (mask lsr (j * (j - 1) / 2 + i)) land 1 = 1
@@ -63,23 +95,47 @@ let parse_less (tok : string) : z -> z -> bool =
 (* ---- draining: [next] is the extracted Next; None is a panic of the model *)
 exception Model_panic
 
+(* the window of the case being run: 0 = drain completely *)
+let window = ref 0
+
 let drain (next : 's -> ('s * bool) option) (value : 's -> string) (init : 's) : string list * string =
-  let s = ref init and vals = ref [] and go = ref true in
+  let s = ref init and vals = ref [] and cnt = ref 0 and go = ref true and win = ref false in
   while !go do
     match next !s with
     | None -> raise Model_panic
-    | Some (s', true) -> s := s'; vals := value s' :: !vals
+    | Some (s', true) ->
+      s := s'; vals := value s' :: !vals; incr cnt;
+      if !window > 0 && !cnt = !window then (go := false; win := true)
     | Some (s', false) -> s := s'; go := false
   done;
-  let tail = Buffer.create 3 in
-  for _ = 1 to 3 do
-    match next !s with
-    | None -> raise Model_panic
-    | Some (s', b) -> s := s'; Buffer.add_char tail (if b then 'T' else 'F')
-  done;
-  (List.rev !vals, Buffer.contents tail)
+  if !win then (List.rev !vals, "WIN") else begin
+    let tail = Buffer.create 3 in
+    for _ = 1 to 3 do
+      match next !s with
+      | None -> raise Model_panic
+      | Some (s', b) -> s := s'; Buffer.add_char tail (if b then 'T' else 'F')
+    done;
+    (List.rev !vals, Buffer.contents tail)
+  end
 
-let obs_of vals tail = Printf.sprintf "%d:%s;%s" (List.length vals) (String.concat "/" vals) tail
+let obs_of vals tail =
+  if tail = "WIN" then Printf.sprintf "%d+:%s;WIN" (List.length vals) (String.concat "/" vals)
+  else Printf.sprintf "%d:%s;%s" (List.length vals) (String.concat "/" vals) tail
+
+(* Peano numeral built without recursion depth *)
+let big_nat (i : int) : nat = let r = ref O in for _ = 1 to i do r := S !r done; !r
+
+(* For parameters whose whole search tree is astronomically large the model's constructors
+   cannot even compute their fuel (a Peano numeral of the size of the tree); the driver then
+   builds the same initial state with the fuel below, which bounds the steps of ONE call of
+   Next (the generator only produces such cases with strongly pruning predicates or windows). *)
+let driver_fuel = lazy (big_nat 2_000_000)
+
+let zs_str (l : string list) : z list = List.map z_of_string l
+let tree_is_big (l : string list) : bool =
+  let p = ref 1.0 in
+  List.iter (fun s -> let v = float_of_string s in if v > 0.0 then p := !p *. (v +. 1.0)) l;
+  !p > 50000.0
 
 let opt = function Some x -> x | None -> raise Model_panic
 
@@ -88,19 +144,24 @@ let () =
     while true do
       let line = input_line stdin in
       let f = List.filter (fun s -> s <> "") (String.split_on_char ' ' line) in
+      let f =
+        match List.rev f with
+        | w :: rest when String.length w > 1 && w.[0] = '@' ->
+          window := int_of_string (String.sub w 1 (String.length w - 1)); List.rev rest
+        | _ -> window := 0; f in
       let name = List.hd f and args = List.tl f in
       let nums l = List.map int_of_string l in
       let lv value = fun s -> tup (is_ (value s)) in
       (try
         let ordered, (vals, tail) =
           match name with
-          | "product" -> true, drain product_next (lv product_value) (product_init (zs (nums args)))
+          | "product" -> true, drain product_next (lv product_value) (product_init (zs_str args))
           | "comb" ->
-            (match nums args with [n; k] -> true, drain comb_next (lv comb_value) (comb_init (z_of_int n) (nat_of_int k)) | _ -> failwith "args")
+            (match args with [n; k] -> true, drain comb_next (lv comb_value) (comb_init (z_of_string n) (nat_of_int (int_of_string k))) | _ -> failwith "args")
           | "colex" ->
-            (match nums args with [n; k] -> true, drain colex_next (lv colex_value) (colex_init (z_of_int n) (nat_of_int k)) | _ -> failwith "args")
+            (match args with [n; k] -> true, drain colex_next (lv colex_value) (colex_init (z_of_string n) (nat_of_int (int_of_string k))) | _ -> failwith "args")
           | "mcomb" ->
-            (match nums args with k :: m -> true, drain mcomb_next (lv mcomb_value) (mcomb_init (zs m) (z_of_int k)) | _ -> failwith "args")
+            (match args with k :: m -> true, drain mcomb_next (lv mcomb_value) (mcomb_init (zs_str m) (z_of_string k)) | _ -> failwith "args")
           | "heap" -> false, drain heap_next (lv heap_value) (heap_init (nat_of_int (int_of_string (List.hd args))))
           | "lexperm" -> true, drain lexperm_next (lv lexperm_value) (lexperm_init (nat_of_int (int_of_string (List.hd args))))
           | "mperm" -> true, drain lexperm_next (lv lexperm_value) (mperm_init (zs (nums args)))
@@ -111,19 +172,26 @@ let () =
             true, drain intparts_next (fun s -> tup (is_ (opt (intparts_value s)))) (intparts_init (nat_of_int (int_of_string (List.hd args))))
           | "rpprod" ->
             let p = parse_pred (List.hd args) in
-            true, drain (rpprod_next p) (lv rpprod_value) (rpprod_init (zs (nums (List.tl args))))
+            let ns = List.tl args in
+            let init = if tree_is_big ns then rpprod_init_with (Lazy.force driver_fuel) (zs_str ns) else rpprod_init (zs_str ns) in
+            true, drain (rpprod_next p) (lv rpprod_value) init
           | "rpperm" ->
             let p = parse_pred (List.hd args) in
-            true, drain (rpperm_next p) (lv rpperm_value) (rpperm_init (nat_of_int (int_of_string (List.nth args 1))))
+            let n = int_of_string (List.nth args 1) in
+            let init = if n > 8 then rpperm_init_with (Lazy.force driver_fuel) (nat_of_int n) else rpperm_init (nat_of_int n) in
+            true, drain (rpperm_next p) (lv rpperm_value) init
           | "pattern" ->
             let p = parse_pred (List.hd args) in
-            false, drain (pattern_next p) (lv pattern_value) (pattern_init (nat_of_int (int_of_string (List.nth args 1))))
+            let n = int_of_string (List.nth args 1) in
+            let init = if n > 8 then pattern_init_with (Lazy.force driver_fuel) (nat_of_int n) else pattern_init (nat_of_int n) in
+            false, drain (pattern_next p) (lv pattern_value) init
           | "topo" ->
             let less = parse_less (List.hd args) in
             false, drain (topo_next less) (lv topo_value) (topo_init (nat_of_int (int_of_string (List.nth args 1))))
           | _ -> failwith ("unknown iterator " ^ name)
         in
         if ordered then print_endline (obs_of vals tail)
+        else if tail = "WIN" then print_endline (Printf.sprintf "%d+:;WIN ## %s" (List.length vals) (String.concat "/" vals))
         else print_endline (obs_of (List.sort compare vals) tail ^ " ## " ^ String.concat "/" vals)
       with Model_panic -> print_endline "panic")
     done
